@@ -336,6 +336,11 @@ def diamond_channel_names(d, tier):
 
 
 def diamond_cases(tier, seed):
+    if 3 not in dims_for(tier):
+        # qutrit unitary pairs in the quick tier too: for d >= 3 the spectrum of U^dagger V need not lie in a half circle, and then the
+        # distance is 2 rather than the longest chord (added after seeded change C20-14, a closed-form fast path that is right for qubits)
+        for a, b in (("U:I", "U:Z"), ("U:F", "U:I"), ("U:g0", "U:Z"), ("U:Z", "U:F")):
+            yield {"d": 3, "a": a, "b": b, "what": "pair"}
     for d in dims_for(tier):
         names = diamond_channel_names(d, tier)
         for a, b in itertools.product(names, repeat=2):
